@@ -32,6 +32,10 @@ type Solver struct {
 	seed     int
 	timeout  int
 	lastErr  string
+	bin      string
+	args     []string
+	dead     bool // the process was killed by the watchdog; queries answer unknown until the next Reset
+	Killed   int
 }
 
 func NewSolver(bin string, args []string, logPath string, seed int, timeoutMs int) (*Solver, error) {
@@ -48,7 +52,7 @@ func NewSolver(bin string, args []string, logPath string, seed int, timeoutMs in
 	if err := cmd.Start(); err != nil {
 		return nil, err
 	}
-	s := &Solver{cmd: cmd, in: in, out: bufio.NewReaderSize(outp, 1<<16), seed: seed, timeout: timeoutMs}
+	s := &Solver{cmd: cmd, in: in, out: bufio.NewReaderSize(outp, 1<<16), seed: seed, timeout: timeoutMs, bin: bin, args: args}
 	if logPath != "" {
 		f, err := os.Create(logPath)
 		if err == nil {
@@ -71,6 +75,9 @@ func (s *Solver) Close() {
 }
 
 func (s *Solver) send(line string) {
+	if s.dead {
+		return
+	}
 	io.WriteString(s.in, line)
 	io.WriteString(s.in, "\n")
 	if s.log != nil {
@@ -80,7 +87,26 @@ func (s *Solver) send(line string) {
 }
 
 // Reset starts a fresh context (one per path run).
+func (s *Solver) restart() {
+	if s.cmd != nil && s.cmd.Process != nil {
+		s.cmd.Process.Kill()
+		s.cmd.Wait()
+	}
+	cmd := exec.Command(s.bin, s.args...)
+	in, err1 := cmd.StdinPipe()
+	outp, err2 := cmd.StdoutPipe()
+	cmd.Stderr = os.Stderr
+	if err1 != nil || err2 != nil || cmd.Start() != nil {
+		return
+	}
+	s.cmd, s.in, s.out = cmd, in, bufio.NewReaderSize(outp, 1<<16)
+}
+
 func (s *Solver) Reset() {
+	if s.dead {
+		s.restart()
+		s.dead = false
+	}
 	s.send("(reset)")
 	s.send("(set-option :print-success false)")
 	s.send(fmt.Sprintf("(set-option :timeout %d)", s.timeout))
@@ -158,6 +184,9 @@ func (s *Solver) readLine() string {
 
 // readSexp reads one balanced s-expression (possibly multi-line).
 func (s *Solver) readSexp() string {
+	if s.dead {
+		return ""
+	}
 	var sb strings.Builder
 	depth := 0
 	started := false
@@ -209,7 +238,31 @@ func (s *Solver) Check(extra ...*Term) string {
 	return res
 }
 
+// readAnswer waits for the verdict; a query that overruns the solver's own timeout by a wide margin
+// (z3 is not always interruptible) gets the process killed and counts as unknown.
 func (s *Solver) readAnswer() string {
+	if s.dead {
+		return "unknown"
+	}
+	if s.cmd == nil {
+		return s.readAnswer0()
+	}
+	ch := make(chan string, 1)
+	go func() { ch <- s.readAnswer0() }()
+	select {
+	case r := <-ch:
+		return r
+	case <-time.After(time.Duration(s.timeout)*time.Millisecond + 20*time.Second):
+		s.cmd.Process.Kill()
+		<-ch
+		s.dead = true
+		s.Killed++
+		s.lastErr = "query killed by watchdog"
+		return "unknown"
+	}
+}
+
+func (s *Solver) readAnswer0() string {
 	for {
 		l := s.readLine()
 		switch {
@@ -222,7 +275,7 @@ func (s *Solver) readAnswer() string {
 			if strings.Contains(l, "solver died") {
 				return "unknown"
 			}
-			ans := s.readAnswer()
+			ans := s.readAnswer0()
 			_ = ans
 			return "unknown"
 		case l == "timeout":
